@@ -1,6 +1,6 @@
 """C05 Persisted state is never older than what was published."""
 from mirlib import AnchorMissing, decision_paths, describe_operand, describe_place, describe_rvalue, dom_guards, op_place, path_str, _suffix_match
-from rules.common import aggregates, callers_by_name, crate_aggregates, owner_def, where
+from rules.common import id_allocation_rule, aggregates, callers_by_name, crate_aggregates, owner_def, where
 
 META = {
     "explanation": (
@@ -301,3 +301,51 @@ def run(ctx):
                 always = it is not None and any(b.dominates(w[1], d[1]) and b.dominates(it.block, w[1]) for w in whole) and not any(dd.startswith("contains(") for dd, l, _ in g)
                 r.check(own or always, key + "/transient-set-by-own-flag", b.loc(d[5] if len(d) > 5 else c.line), "transient := true under the item's own TRANSIENT flag (or unconditionally for dynamically added lanes, on a fresh config)",
                         "transient is set under %s" % [(dd[:40], l) for dd, l, _ in g][-2:])
+
+    with ctx.rule("C05.R9", "T7+T1", "a lane is restored from and persisted under one id: the id its own name maps to, allocated crash-safely", floor=8) as r:
+        id_allocation_rule(r, ctx)
+        # runtime side: the id handed to the store initialiser (restore) and the id returned with the endpoint (under which persist_response
+        # later writes) are the same result of store.store_id(<this item's name>)
+        ast = ctx.saw(rt.fn(suffix="init::Initialization::add_store"))
+        sid = [c for c in ast.calls if c.via_name == "store_id"]
+        if len(sid) != 1:
+            raise AnchorMissing("Initialization::add_store: store_id call")
+        r.check(describe_operand(ast, sid[0].args[1]) in ("as_str(name)", "name"), "add_store/id-of-own-name", sid[0].loc(), "the store id is looked up by the store's own name", "store_id is looked up by %s" % describe_operand(ast, sid[0].args[1]))
+        want = "store_id(store, %s)<Ok>.0" % describe_operand(ast, sid[0].args[1])
+        used = []
+        for c in ast.calls:
+            if c.via_name in ("init_value_store", "init_map_store"):
+                used.append((c, describe_operand(ast, c.args[1])))
+            if c.name == "map_ok":
+                used.append((c, describe_operand(ast, c.args[1])[len("agg("):-1]))
+        r.check(len(used) >= 3 and all(d == want for _, d in used), "add_store/restore-id=persist-id", where(ast), "the id the state is restored from and the id returned for persisting are the same store_id result (%d uses)" % len(used),
+                "ids used: %s (expected every use to be %s)" % ([d for _, d in used], want))
+        al = [b for b in rt.all_bodies() if b.defpath.endswith("init::Initialization::add_lane::{closure#0}")]
+        if len(al) != 1:
+            raise AnchorMissing("Initialization::add_lane coroutine")
+        al = ctx.saw(al[0])
+        getter = [b for b in rt.closures_of(al.defpath) if any(c.via_name == "store_id" for c in b.calls)]
+        r.check(len(getter) == 1 and all(describe_operand(getter[0], c.args[1]) in ("as_str(name)", "name") for c in getter[0].calls if c.via_name == "store_id"), "add_lane/id-of-own-name", where(al),
+                "the store id is looked up by the lane's own name", "the lane's store id is not looked up by its own name")
+        ats = [c for c in al.calls if c.name == "and_then" and any(x.via_name in ("init_value_store", "init_map_store") for cb in rt.closures_of(al.defpath) for x in cb.calls)]
+        tup = [(i, describe_rvalue(al, rv)) for i, j, p, rv, line in al.assigns() if rv[0] == "agg" and "adt" not in rv[1] and len(rv[2]) == 2 and "Option::Some(" in describe_rvalue(al, rv)]
+        n = 0
+        for c in ats:
+            recv = describe_operand(al, c.args[0])
+            mine = [d for i, d in tup if al.dominates(c.block, i) and d.startswith("tuple(")]
+            if not mine:
+                continue
+            n += 1
+            first = mine[0][len("tuple("):]
+            r.check(first.startswith(recv + ", "), "add_lane/restore-id=persist-id#%d" % n, c.loc(), "the initialiser is built from the same id that is returned for persisting",
+                    "the initialiser is built from %s but the id returned for persisting is %s" % (recv[:60], first[:60]))
+            r.check("call(" in recv and "branch(" in recv, "add_lane/id-from-store_id#%d" % n, c.loc(), "that id is the (error-propagated) result of the store_id look-up")
+        if n < 2:
+            raise AnchorMissing("add_lane: expected the value and map arms to build an initialiser from the store id (found %d)" % n)
+        inits = {cb.defpath: [x.via_name for x in cb.calls if x.via_name in ("init_value_store", "init_map_store")] for cb in rt.closures_of(al.defpath)}
+        for dp, nm in sorted(inits.items()):
+            for m in nm:
+                cb = [x for x in rt.closures_of(al.defpath) if x.defpath == dp][0]
+                a = [describe_operand(cb, x.args[1]) for x in cb.calls if x.via_name == m]
+                r.check(a == ["lane_id"], "add_lane/%s/by-the-looked-up-id" % m, where(cb), "%s is given the looked-up id" % m, "%s is given %s" % (m, a))
+
